@@ -368,6 +368,10 @@ func LogSpan(dst []float64, l, u float64) []float64 {
 	for i := range dst {
 		dst[i] = math.Exp(dst[i])
 	}
+	if l > 0 && u > 0 {
+		// The end points are l and u, not subject to the rounding of exp(log(x)).
+		dst[0], dst[len(dst)-1] = l, u
+	}
 	return dst
 }
 
